@@ -20,6 +20,9 @@ from .symt import (BOOL, CPU, DTYPES, FLOAT, INT, DType, Device, InterpError, ST
                    simplify, to_rat)
 
 
+_GEN_CACHE: Dict[int, bool] = {}
+
+
 class _Return(Exception):
     def __init__(self, value):
         self.value = value
@@ -42,6 +45,15 @@ class Obj:
 
     def __repr__(self):
         return f"<{self.cls.name} obj {sorted(self.attrs)}>"
+
+
+from . import modmodel as MM
+
+
+class ModObj(Obj):
+    """Instance of a repo class deriving from torch.nn.Module (attribute routing per sa/modmodel.py)."""
+
+    is_module = True
 
 
 class STObj(STensor):
@@ -218,6 +230,8 @@ class Interp:
             return self._call_func(f, args, kwargs)
         if isinstance(f, ClassVal):
             return self._instantiate(f.cls, args, kwargs)
+        if isinstance(f, ModObj):
+            return self.call_module(f, args, kwargs)
         if isinstance(f, External):
             return self._call_external(f.name, args, kwargs, node)
         if isinstance(f, type) or callable(f):
@@ -248,8 +262,9 @@ class Interp:
                 frame.self_obj = args[0]
             if isinstance(node, ast.Lambda):
                 return self.eval(node.body, frame)
-            is_gen = any(isinstance(n, (ast.Yield, ast.YieldFrom)) for n in ast.walk(node)
-                         if not isinstance(n, (ast.Lambda,)))
+            is_gen = _GEN_CACHE.get(id(node))
+            if is_gen is None:
+                is_gen = _GEN_CACHE[id(node)] = any(isinstance(n, (ast.Yield, ast.YieldFrom)) for n in ast.walk(node))
             if is_gen:
                 frame.vars["__yields__"] = []
             try:
@@ -321,8 +336,10 @@ class Interp:
             if init is not None:
                 self._call_func(FuncVal(init, init.node, init.module, None, init.cls), [obj] + list(args), kwargs)
             return obj
-        obj = Obj(ci)
+        obj = ModObj(ci) if prog.is_module_class(ci) else Obj(ci)
         init = prog.find_method(ci, "__init__")
+        if init is None and isinstance(obj, ModObj):
+            MM.module_init(obj)
         if init is not None:
             self._call_func(FuncVal(init, init.node, init.module, None, init.cls), [obj] + list(args), kwargs)
         elif args or kwargs:
@@ -401,7 +418,11 @@ class Interp:
     # ------------------------------------------------------------------ attribute access
     def getattr(self, v, attr: str, node=None):
         prog = self.prog
+        if isinstance(v, ModObj):
+            return self._module_getattr(v, attr)
         if isinstance(v, Obj):
+            if attr == "__dict__":
+                return v.attrs
             if attr in v.attrs:
                 return v.attrs[attr]
             m = prog.find_method(v.cls, attr)
@@ -424,7 +445,11 @@ class Interp:
             m = prog.find_method(v.obj.cls if isinstance(v.obj, Obj) else v.obj.cls, attr, after=v.after)
             if m is None:
                 if attr == "__init__":
+                    if isinstance(v.obj, ModObj) and "_parameters" not in v.obj.attrs:
+                        return lambda *a, **k: MM.module_init(v.obj)
                     return lambda *a, **k: None
+                if isinstance(v.obj, ModObj) and attr in _MODULE_METHODS:
+                    return _MODULE_METHODS[attr](self, v.obj)
                 if isinstance(v.obj, STObj) and hasattr(STensor, attr):
                     return getattr(v.obj.plain(), attr)
                 raise Unsupported(f"super().{attr} resolves outside the repo")
@@ -521,7 +546,7 @@ class Interp:
                 raise InterpError("AttributeError", f"'{type(v).__name__}' object has no attribute '{attr}'")
         if v is None:
             raise InterpError("AttributeError", f"'NoneType' object has no attribute '{attr}'")
-        if isinstance(v, HostObject):
+        if isinstance(v, (HostObject, MM.HModuleDict, MM.HModuleList, MM.HookHandle)):
             try:
                 return getattr(v, attr)
             except AttributeError:
@@ -531,6 +556,59 @@ class Interp:
                 return getattr((v.func if isinstance(v, BoundMethod) else v).node, "name", "lambda")
         raise Unsupported(f"attribute '{attr}' of {type(v).__name__}")
 
+    def _module_getattr(self, v: "ModObj", attr: str):
+        prog = self.prog
+        if attr == "__dict__":
+            return v.attrs
+        if attr == "__class__":
+            return ClassVal(v.cls)
+        m = prog.find_method(v.cls, attr)
+        if m is not None and m.is_property:
+            return self._call_func(FuncVal(m, m.node, m.module, None, m.cls), [v], {})
+        if attr in v.attrs:
+            return v.attrs[attr]
+        if m is not None:
+            fv = FuncVal(m, m.node, m.module, None, m.cls)
+            if m.is_static:
+                return fv
+            if m.is_classmethod:
+                return BoundMethod(ClassVal(v.cls), fv)
+            return BoundMethod(v, fv)
+        for c in prog.mro(v.cls):
+            if attr in c.class_attrs:
+                return self.eval(c.class_attrs[attr], Frame(c.module, c))
+        r = MM.module_getattr_fallback(v, attr)
+        if r is not MM._MISSING:
+            return r
+        if attr in _MODULE_METHODS:
+            return _MODULE_METHODS[attr](self, v)
+        if attr == "__new__":
+            return lambda cls_: ModObj(cls_.cls)
+        raise InterpError("AttributeError", f"'{v.cls.name}' object has no attribute '{attr}'")
+
+    def delattr(self, v, attr: str):
+        if isinstance(v, ModObj):
+            MM.module_delattr(v, attr)
+        elif isinstance(v, (Obj, STObj)):
+            if attr not in v.attrs:
+                raise InterpError("AttributeError", attr)
+            del v.attrs[attr]
+        else:
+            raise Unsupported(f"delattr on {type(v).__name__}")
+
+    def call_module(self, m: "ModObj", args, kwargs):
+        """torch.nn.Module.__call__: forward pre-hooks, then forward()."""
+        for hook in list((m.attrs.get("_forward_pre_hooks") or {}).values()):
+            r = self.call_value(hook, [m, tuple(args)], {})
+            if r is not None:
+                args = list(r) if isinstance(r, tuple) else [r]
+        out = self.call_value(self.getattr(m, "forward"), list(args), dict(kwargs))
+        for hook in list((m.attrs.get("_forward_hooks") or {}).values()):
+            r = self.call_value(hook, [m, tuple(args), out], {})
+            if r is not None:
+                out = r
+        return out
+
     def _as_subclass(self, v: STensor, t):
         if isinstance(t, ClassVal):
             return STObj(t.cls, v)
@@ -539,6 +617,15 @@ class Interp:
         raise Unsupported(f"as_subclass({t!r})")
 
     def setattr(self, v, attr: str, value):
+        if isinstance(v, ModObj):
+            if attr == "__dict__":
+                v.attrs = value
+                return
+            MM.module_setattr(v, attr, value)
+            return
+        if isinstance(v, Obj) and attr == "__dict__":
+            v.attrs = value
+            return
         if isinstance(v, STObj):
             v.attrs[attr] = value
             return
@@ -661,6 +748,8 @@ class Interp:
                     c = self.eval(t.value, frame)
                     k = self.eval(t.slice, frame)
                     del c[k]
+                elif isinstance(t, ast.Attribute):
+                    self.delattr(self.eval(t.value, frame), t.attr)
                 else:
                     self.unsupported(st, "del target")
         elif isinstance(st, ast.Import):
@@ -752,6 +841,8 @@ class Interp:
     def _setitem(self, c, k, v, node):
         if isinstance(c, STensor):
             c[k] = v
+        elif isinstance(c, MM.HModuleDict):
+            c[k] = v
         elif isinstance(c, (list, dict)):
             try:
                 if isinstance(c, list):
@@ -774,6 +865,8 @@ class Interp:
             return symt._truth(v)
         if isinstance(v, (int, Fraction, str, tuple, list, dict, set, range, frozenset)):
             return bool(v)
+        if isinstance(v, (MM.HModuleDict, MM.HModuleList)):
+            return len(v) > 0
         if isinstance(v, (Obj, EnumVal, ClassVal, FuncVal, BoundMethod, ModuleVal, External, DType, Device)):
             if isinstance(v, Obj):
                 ln = self.prog.find_method(v.cls, "__len__")
@@ -932,6 +1025,8 @@ class Interp:
                 f = {ast.Add: a.add, ast.Sub: a.sub, ast.Mult: a.mul, ast.Div: a.div, ast.Pow: a.pow}.get(t)
                 if t is ast.FloorDiv:
                     return a.div(b, rounding_mode="floor")
+                if t is ast.Mod:
+                    return a.remainder(b)
                 if f is None:
                     self.unsupported(node, "tensor binary operator")
                 return f(b)
@@ -1082,6 +1177,10 @@ class Interp:
             return False
         if isinstance(container, ClassVal) and self._is_enum(container.cls):
             return isinstance(item, EnumVal) and item.cls == container.cls
+        if isinstance(container, MM.HModuleDict):
+            return item in container
+        if isinstance(container, (Obj, STObj)) and self.prog.find_method(container.cls, "__contains__") is not None:
+            return self.truth(self.method(container, "__contains__", item))
         self.unsupported(node, f"membership in {type(container).__name__}")
 
     def _eq_values(self, x, y) -> bool:
@@ -1100,6 +1199,8 @@ class Interp:
         return self._getitem(c, k, e)
 
     def _getitem(self, c, k, node):
+        if isinstance(c, (MM.HModuleDict, MM.HModuleList)):
+            return c[self._index_value(k) if isinstance(c, MM.HModuleList) else k]
         if isinstance(c, STObj) and self.prog.find_method(c.cls, "__getitem__") is not None:
             return self.method(c, "__getitem__", k)
         if isinstance(c, STensor):
@@ -1245,8 +1346,11 @@ class Interp:
         if fn is _setattr:
             self.setattr(args[0], args[1], args[2])
             return None
+        if fn is _delattr:
+            self.delattr(args[0], args[1])
+            return None
         if fn is _callable:
-            return isinstance(args[0], (FuncVal, BoundMethod, ClassVal, External)) or callable(args[0])
+            return isinstance(args[0], (FuncVal, BoundMethod, ClassVal, External, ModObj)) or callable(args[0])
         if fn is _type:
             v = args[0]
             if isinstance(v, (Obj, STObj)):
@@ -1355,7 +1459,13 @@ class Interp:
             if n in ("Tensor",):
                 return isinstance(v, STensor)
             if n == "Parameter":
-                return isinstance(v, STensor) and getattr(v, "requires_grad", False)
+                return isinstance(v, MM.Param)
+            if n == "Module":
+                return MM.is_module_value(v)
+            if n == "ModuleDict":
+                return isinstance(v, MM.HModuleDict)
+            if n == "ModuleList":
+                return isinstance(v, MM.HModuleList)
             if n in ("Size",):
                 return isinstance(v, Size)
             if n in ("Sequence", "Iterable", "Collection"):
@@ -1404,6 +1514,37 @@ class Interp:
             if len(args) > 2:
                 o.requires_grad = bool(args[2])
             return o
+        if last in ("copy", "deepcopy") and short[0] == "copy" and args:
+            x = args[0]
+            if isinstance(x, (Obj, STObj)):
+                special = "__copy__" if last == "copy" else "__deepcopy__"
+                m = self.prog.find_method(x.cls, special)
+                if m is not None:
+                    return self.method(x, special) if last == "copy" else self.method(x, special, args[1] if len(args) > 1 else {})
+                if isinstance(x, ModObj):
+                    if last == "deepcopy":
+                        raise Unsupported("deepcopy of nn.Module without __deepcopy__")
+                    c = ModObj(x.cls)
+                    c.attrs = dict(x.attrs)  # default copy.copy: new __dict__, containers shared
+                    return c
+        if last == "Parameter" and (short[0] in ("torch", "nn") or len(short) == 1):
+            return MM.make_parameter(*args, **kwargs)
+        if last == "ModuleDict":
+            return MM.HModuleDict(*args)
+        if last == "ModuleList":
+            return MM.HModuleList(*args)
+        if last == "OrderedDict":
+            from collections import OrderedDict as _OD
+            return _OD(*[list(self.iterate(a)) if not isinstance(a, dict) else a for a in args], **kwargs)
+        if "init" in short and last.endswith("_") and args and isinstance(args[0], STensor):
+            t = args[0]
+            if last == "constant_":
+                return t.fill_(args[1] if len(args) > 1 else kwargs.get("val"))
+            if last == "zeros_":
+                return t.fill_(0)
+            if last == "ones_":
+                return t.fill_(1)
+            raise Unsupported(f"torch.nn.init.{last}")
         if name in _EXTERNAL_FUNCS:
             try:
                 return _EXTERNAL_FUNCS[name](*args, **kwargs)
@@ -1450,6 +1591,7 @@ def _isinstance(*a): raise RuntimeError
 def _getattr(*a): raise RuntimeError
 def _hasattr(*a): raise RuntimeError
 def _setattr(*a): raise RuntimeError
+def _delattr(*a): raise RuntimeError
 def _callable(*a): raise RuntimeError
 def _type(*a): raise RuntimeError
 def _len(*a): raise RuntimeError
@@ -1577,7 +1719,7 @@ def _slice(*a):
 
 
 _BUILTINS: Dict[str, Any] = {
-    "isinstance": _isinstance, "getattr": _getattr, "hasattr": _hasattr, "setattr": _setattr, "callable": _callable,
+    "isinstance": _isinstance, "getattr": _getattr, "hasattr": _hasattr, "setattr": _setattr, "delattr": _delattr, "callable": _callable,
     "type": _type, "len": _len, "any": _any, "all": _all, "tuple": _tuple, "list": _list, "set": _set, "dict": _dict,
     "sorted": _sorted, "sum": _sum, "min": _min, "max": _max, "zip": _zip, "enumerate": _enumerate, "reversed": _reversed,
     "map": _map, "int": _int, "float": _float, "bool": _bool, "abs": _abs, "round": _round, "range": _range, "str": _str,
@@ -1699,6 +1841,84 @@ _EXTERNAL_FUNCS["copy.copy"] = _shallow_copy
 _EXTERNAL_FUNCS["copy.deepcopy"] = _deep_copy
 
 
+def _mm_register_buffer(it, obj):
+    return lambda name, tensor, persistent=True: MM.register_buffer(obj, name, tensor, persistent)
+
+
+def _mm_register_parameter(it, obj):
+    return lambda name, param: MM.register_parameter(obj, name, param)
+
+
+def _mm_register_pre_hook(it, obj):
+    def f(hook, **k):
+        table = obj.attrs["_forward_pre_hooks"]
+        key = len(table)
+        table[key] = hook
+        return MM.HookHandle(table, key)
+    return f
+
+
+def _mm_register_hook(it, obj):
+    def f(hook, **k):
+        table = obj.attrs["_forward_hooks"]
+        key = len(table)
+        table[key] = hook
+        return MM.HookHandle(table, key)
+    return f
+
+
+def _mm_members(which, named):
+    def g(it, obj):
+        def f(prefix="", recurse=True, **k):
+            items = list(MM.named_members(obj, which, prefix + ("." if prefix else ""), None, recurse))
+            return iter(items if named else [v for _, v in items])
+        return f
+    return g
+
+
+def _mm_children(named):
+    def g(it, obj):
+        return lambda: iter(list(MM.children(obj)) if named else [m for _, m in MM.children(obj)])
+    return g
+
+
+def _mm_modules(named):
+    def g(it, obj):
+        return lambda: iter(list(MM.named_modules(obj)) if named else [m for _, m in MM.named_modules(obj)])
+    return g
+
+
+def _mm_self(it, obj):
+    return lambda *a, **k: obj
+
+
+def _mm_call(it, obj):
+    return lambda *a, **k: it.call_module(obj, list(a), k)
+
+
+def _mm_add_module(it, obj):
+    def f(name, module):
+        obj.attrs["_modules"][name] = module
+    return f
+
+
+def _mm_get_name(it, obj):
+    return lambda: obj.cls.name
+
+
+_MODULE_METHODS: Dict[str, Callable] = {
+    "register_buffer": _mm_register_buffer, "register_parameter": _mm_register_parameter,
+    "register_forward_pre_hook": _mm_register_pre_hook, "register_forward_hook": _mm_register_hook,
+    "named_buffers": _mm_members("_buffers", True), "buffers": _mm_members("_buffers", False),
+    "named_parameters": _mm_members("_parameters", True), "parameters": _mm_members("_parameters", False),
+    "named_children": _mm_children(True), "children": _mm_children(False),
+    "named_modules": _mm_modules(True), "modules": _mm_modules(False),
+    "to": _mm_self, "cpu": _mm_self, "cuda": _mm_self, "train": _mm_self, "eval": _mm_self, "float": _mm_self,
+    "double": _mm_self, "requires_grad_": _mm_self, "zero_grad": _mm_self, "__call__": _mm_call, "add_module": _mm_add_module,
+    "_get_name": _mm_get_name, "extra_repr": lambda it, obj: (lambda: ""),
+}
+
+
 class _FInfo(HostObject):
     """torch.finfo in exact arithmetic: machine epsilons are 0 (stated assumption)."""
     tiny = 0
@@ -1738,7 +1958,9 @@ _TORCH: Dict[str, Callable] = {
     "tensor": symt.tensor, "as_tensor": symt.as_tensor, "zeros": symt.zeros, "ones": symt.ones, "empty": symt.empty,
     "full": symt.full, "eye": symt.eye, "diag": symt.diag, "arange": symt.arange, "linspace": symt.linspace,
     "cat": symt.cat, "stack": symt.stack, "matmul": symt.matmul, "mm": symt.mm, "bmm": symt.bmm, "inverse": symt.inverse,
-    "where": symt.where, "allclose": symt.allclose, "linear": symt.linear, "atan2": symt.atan2, "meshgrid": symt.meshgrid, "grid_sample": symt.grid_sample, "pad": symt.fpad, "interpolate": symt.interpolate,
+    "where": symt.where, "allclose": symt.allclose, "linear": symt.linear, "atan2": symt.atan2, "meshgrid": symt.meshgrid, "grid_sample": symt.grid_sample, "pad": symt.fpad,
+    "conv1d": symt.convnd, "conv2d": symt.convnd, "conv3d": symt.convnd,
+    "conv_transpose1d": symt.conv_transpose_nd, "conv_transpose2d": symt.conv_transpose_nd, "conv_transpose3d": symt.conv_transpose_nd, "interpolate": symt.interpolate,
     "avg_pool1d": symt.avg_pool, "avg_pool2d": symt.avg_pool, "avg_pool3d": symt.avg_pool,
     "atleast_1d": lambda t: (t if isinstance(t, STensor) else symt.tensor(t)) if (isinstance(t, STensor) and t.ndim > 0) else (t if isinstance(t, STensor) else symt.tensor(t)).reshape(1) if (not isinstance(t, STensor) or t.ndim == 0) and not isinstance(t, (list, tuple)) else symt.tensor(t), "triu_indices": symt.triu_indices,
     "is_tensor": _t_is_tensor, "is_floating_point": _t_is_floating_point, "no_grad": _NoGrad(),
